@@ -472,6 +472,30 @@ pub fn push_partial_close_cheap(exps: &mut Vec<Exp>, depth: usize) {
     exps.push(Exp { setup: None, name: "partial close, price 0.1".into(), cfg: c, traders: T2.to_vec(), seeds: vec![vec![]], alpha: Alpha::Dyn(alpha_c15), depth, init_mon: Value::Null, raw: false });
 }
 
+/// Tight wallet allowances (cw20 collateral, fees on): a trader sets the engine's allowance on their wallet to zero, to an
+/// amount that covers some of the transfers an operation pulls but not all of them, and back to plenty, between
+/// trades. A pull that the allowance does not cover is a natural failure of one sub-message in the middle of a
+/// transaction.
+pub fn push_allowance(exps: &mut Vec<Exp>, depth: usize) {
+    let mut al = StdAlpha::basic(&T2);
+    al.sizes = vec![SIZE_S, SIZE_M];
+    al.deposit = Some(5 * D);
+    al.withdraw = None;
+    al.funding = false;
+    al.prices = vec![];
+    al.blocks = vec![15];
+    let mut alpha = al.acts();
+    for amt in [0, 500_000, 20 * D + 500_000, u128::MAX / 8] {
+        alpha.push(Act::Allowance { t: "alice".into(), amt });
+    }
+    let seeds = vec![
+        vec![],
+        vec![Act::open("alice", true, SIZE_S.0, SIZE_S.1), Act::open("bob", false, SIZE_M.0, SIZE_M.1), Act::blk(15)],
+        vec![Act::open("alice", false, SIZE_M.0, SIZE_M.1), Act::open("bob", false, SIZE_S.0, SIZE_S.1), Act::blk(15), Act::Allowance { t: "alice".into(), amt: 0 }],
+    ];
+    exps.push(Exp::new("tight wallet allowance", cfg_with(true, true, 0), alpha, seeds, depth));
+}
+
 /// Configuration changed mid-history: the owner's legal updates of the engine ratios and of the vAMM's fee and band
 /// settings are actions, interleaved with trades, liquidations and funding on positions opened under the old values.
 /// The oracles read the configuration in force (`World::live_cfg`).
@@ -622,6 +646,7 @@ pub fn run_c02(tier: Tier) -> i32 {
     push_whale(&mut exps, tier.pick(2, 3));
     push_partial_close_cheap(&mut exps, tier.pick(4, 5));
     push_cfgchange(&mut exps, tier.pick(3, 4));
+    push_allowance(&mut exps, tier.pick(3, 4));
     push_dec9(&mut exps, tier.pick(1, 3), false);
     run_exps(&mut run, step_c02, exps, |_| {});
     run.finish()
@@ -687,6 +712,7 @@ pub fn run_c03(tier: Tier) -> i32 {
     push_whale(&mut exps, tier.pick(2, 3));
     push_partial_close_cheap(&mut exps, tier.pick(4, 5));
     push_cfgchange(&mut exps, tier.pick(3, 4));
+    push_allowance(&mut exps, tier.pick(3, 4));
     push_dec9(&mut exps, tier.pick(1, 3), false);
     run_exps(&mut run, step_c03, exps, |_| {});
     run.finish()
@@ -874,6 +900,7 @@ pub fn run_c04(tier: Tier) -> i32 {
     push_whale(&mut exps, tier.pick(2, 3));
     push_partial_close_cheap(&mut exps, tier.pick(4, 5));
     push_cfgchange(&mut exps, tier.pick(3, 4));
+    push_allowance(&mut exps, tier.pick(3, 4));
     push_dec9(&mut exps, tier.pick(1, 3), false);
     run_exps(&mut run, step_c04, exps, |_| {});
     run.finish()
@@ -996,6 +1023,35 @@ fn step_c06(m: &EngModel, w: &mut World, s: &EngSt, a: &Act, out: &mut StepOut) 
 fn step_c07(m: &EngModel, w: &mut World, s: &EngSt, a: &Act, out: &mut StepOut) -> Option<EngSt> {
     let so = m.observe_step(w, s, a, out);
     oracle_c06_c07(w, &so, out, false, true);
+    // "the insurance fund holds enough to cover any shortfall", taken literally: the amount the liquidation draws
+    // from the fund is read off a re-execution of the same pre-state with a rich fund; the liquidation is then
+    // re-executed from the same pre-state with the fund holding exactly that amount, and must succeed.
+    if matches!(a, Act::Liq { .. }) && c07_preconditions_but_fund(w, &so) && !m.traders.iter().any(|t| *t == "stranger") {
+        w.restore(&s.snap);
+        w.top_up_ifund();
+        let o_rich = apply(w, a);
+        out.executions += 1;
+        if o_rich.ok {
+            let (ifa, eng) = (w.ifund.to_string(), w.engine.to_string());
+            let needed: u128 = crate::obs::transfers(w, false).iter().filter(|x| x.from == ifa && x.to == eng).map(|x| x.amt).sum();
+            w.restore(&s.snap);
+            if w.set_ifund_balance(needed) {
+                let o_exact = apply(w, a);
+                out.executions += 1;
+                out.tag(if needed > 0 { "c07:exact-fund-twin-with-shortfall" } else { "c07:exact-fund-twin-no-shortfall" });
+                if !o_exact.ok {
+                    out.viol(
+                        format!("C07:liquidation-refused-though-fund-covers-shortfall:{}", err_class(&o_exact.err)),
+                        format!(
+                            "{:?} draws {} from the insurance fund when the fund is rich; with the fund holding exactly {} it failed: {}",
+                            a, needed, needed, o_exact.err
+                        ),
+                    );
+                }
+            }
+        }
+        w.restore(&so.post_snap);
+    }
     next(&so)
 }
 
@@ -1362,6 +1418,7 @@ pub fn run_c08(tier: Tier) -> i32 {
     push_dust(&mut exps, true, tier.pick(3, 4));
     push_two_vamms(&mut exps, tier.pick(3, 4));
     push_cfgchange(&mut exps, tier.pick(3, 4));
+    push_allowance(&mut exps, tier.pick(3, 4));
     push_dec9(&mut exps, tier.pick(1, 3), false);
     run_exps(&mut run, step_c08, exps, |_| {});
     run.finish()
@@ -1466,6 +1523,7 @@ pub fn run_c12(tier: Tier) -> i32 {
     push_whale(&mut exps, tier.pick(2, 3));
     push_partial_close_cheap(&mut exps, tier.pick(4, 5));
     push_cfgchange(&mut exps, tier.pick(3, 4));
+    push_allowance(&mut exps, tier.pick(3, 4));
     push_dec9(&mut exps, tier.pick(1, 3), false);
     run_exps(&mut run, step_c12, exps, |_| {});
     run.finish()
@@ -1688,6 +1746,16 @@ fn alpha_c15(w: &mut World, s: &EngSt) -> Vec<Act> {
     acts
 }
 
+/// alpha_c15 plus the permissionless operations anybody can slip between two trades of one block: a funding
+/// settlement (due in the seeds) and liquidations
+fn alpha_c15_permissionless(w: &mut World, s: &EngSt) -> Vec<Act> {
+    let mut acts = alpha_c15(w, s);
+    acts.push(Act::fund());
+    acts.push(Act::liq("liq", "alice"));
+    acts.push(Act::liq("liq", "bob"));
+    acts
+}
+
 /// monitor: {h, p: spot price at the end of the previous block}
 fn step_c15(m: &EngModel, w: &mut World, s: &EngSt, a: &Act, out: &mut StepOut) -> Option<EngSt> {
     let d1 = du();
@@ -1807,6 +1875,16 @@ pub fn run_c15(tier: Tier) -> i32 {
             push(mk(20_000, 250_000), 5);
             push(mk(50_000, D), 5);
         }
+    }
+    // funding settlements and liquidations between the trades of one block (funding is due in the seeds)
+    {
+        let d = D;
+        let seeds = vec![
+            vec![Act::blk(3900)],
+            vec![Act::Open { t: "alice".into(), v: 0, buy: true, margin: 10 * d, lev: 2 * d, limit: 0 }, Act::blk(3900)],
+            vec![Act::Open { t: "alice".into(), v: 0, buy: false, margin: 10 * d, lev: 2 * d, limit: 0 }, Act::Open { t: "bob".into(), v: 0, buy: true, margin: 5 * d, lev: 2 * d, limit: 0 }, Act::blk(3900)],
+        ];
+        exps.push(Exp { setup: None, name: "price band, funding settlement and liquidations inside the block".into(), cfg: mk(50_000, 250_000), traders: T2.to_vec(), seeds, alpha: Alpha::Dyn(alpha_c15_permissionless), depth: tier.pick(3, 4), init_mon: Value::Null, raw: false });
     }
     push_dec9(&mut exps, tier.pick(1, 2), true);
     run_exps(&mut run, step_c15, exps, |_| {});
